@@ -145,6 +145,35 @@ def check(run):
         if o != "<crash>" and (not o.startswith("Ok ") or o.split(" ")[3] != e):
             oracle_fail.append((l[:3000], "Ok ... " + e[:300], o[:400]))
 
+    # 6. several escapes in ONE string: consecutive surrogate pairs, pairs separated by raw characters or by a BMP
+    #    escape, the same pair twice; as a value and as a key
+    def uesc(cp):
+        if cp >= 0x10000:
+            v = cp - 0x10000
+            return "\\u%04X\\u%04x" % (0xD800 + (v >> 10), 0xDC00 + (v & 0x3FF))
+        return "\\u%04x" % cp
+    multi_lines, multi_exp = [], []
+    astral = [0x10000, 0x10FFFF, 0x1F600, 0x1F601, 0x1D11E, 0x2F800] + [rnd.randrange(0x10000, 0x110000) for _ in range(20)]
+    bmp = [0xE9, 0x20AC, 0x7F, 0x800, 0xFFFF, 0xD7FF, 0xE000]
+    for _ in range(300 if thorough else 80):
+        parts, out = [], b""
+        for _k in range(rnd.randrange(2, 5)):
+            kind = rnd.random()
+            if kind < 0.6:
+                cp = rnd.choice(astral); parts.append(uesc(cp)); out += chr(cp).encode("utf-8")
+            elif kind < 0.8:
+                cp = rnd.choice(bmp); parts.append(uesc(cp)); out += chr(cp).encode("utf-8")
+            else:
+                ch = rnd.choice("xyz "); parts.append(ch); out += ch.encode()
+        body = "".join(parts)
+        for text, exp in ((('"%s"' % body), "s" + hx(out)), ('{"%s":1}' % body, "{" + hx(out) + ":i1}"), ('["%s","%s"]' % (body, body), "[s%s,s%s]" % (hx(out), hx(out)))):
+            multi_lines.append(jline(text.encode())); multi_exp.append(exp)
+    mism, mo, io = vlib.correspond(run, model, impl, multi_lines, cfg, "several escapes in one string")
+    all_mism += mism
+    for l, e, o in zip(multi_lines, multi_exp, io):
+        if o != "<crash>" and (not o.startswith("Ok ") or o.split(" ")[3] != e):
+            oracle_fail.append((l[:2000], "Ok ... " + e[:300], o[:400]))
+
     run.cov["rule"] = ("exhaustive over \\uXXXX code units (65536), single bytes (256), byte pairs (65536); "
                        "code points every %d-th + boundaries; surrogate pairs %s; distinct = distinct case line; "
                        "every case decodes/encodes at least one character (non-trivial)" %
